@@ -159,6 +159,8 @@ type ProxyOpts struct {
 	ConnectTo      []string
 	AllowTimeFrame []ruleset.TimeFrameEntry
 	ReqMods        []forwarder.RequestModifier
+	DialAttempts   int           // dial retry (default 1: a refused dial is final)
+	DialBackoff    time.Duration
 	ConnectHeaders []string // --connect-header rules, wired as command/run does (request modifier for CONNECT + GetProxyConnectHeader)
 	ResMods        []forwarder.ResponseModifier
 	ConnectFunc    forwarder.ConnectFunc
@@ -379,6 +381,9 @@ func StartProxy(o ProxyOpts) (*ProxyInst, error) {
 	tcfg.PromNamespace = "forwarder"
 	tcfg.Insecure = o.Insecure
 	tcfg.Retry = forwarder.DialRetryConfig{Attempts: 1}
+	if o.DialAttempts > 1 {
+		tcfg.Retry = forwarder.DialRetryConfig{Attempts: o.DialAttempts, Backoff: o.DialBackoff}
+	}
 	if o.DialTimeout > 0 {
 		tcfg.DialTimeout = o.DialTimeout
 	}
